@@ -5,7 +5,7 @@ handshake codecs vs spec/handshake.json, Buf-consumption PANIC accounting,
 step order / timeout wrapping in Connection::connect.
 """
 import json, os, re
-from ..core import callee_of, callee_names, is_call_to, fold, dominating_edges
+from ..core import callee_of, callee_names, is_call_to, fold, dominating_edges, receiver_root
 from ..ranges import Ranges, canon
 from ..families import describe, check_casts
 from ..wire import success_sequences, io_events, fmt_seq, prim_of, error_blocks
@@ -309,6 +309,20 @@ def run(ctx):
                         # must happen on every path through the Disconnected write
                         if B.all_paths_pass(bb, [bb2]) or B.block_dominates(bb2, bb):
                             cleared.add(fld)
+        # other clearing idioms: Option::take / mem::take / mem::replace(.., None) on the field
+        for bb2, t2 in B.calls():
+            nm = (callee_of(t2)[0] or '').rsplit('::', 1)[-1]
+            full = callee_of(t2)[0] or ''
+            if not t2['args'] or not ((nm == 'take' and ('Option' in full or 'mem::' in full)) or (nm == 'replace' and 'mem::' in full)):
+                continue
+            if nm == 'replace':
+                o_ = B.origin(t2['args'][1])
+                if not (o_[0] == 'agg' and o_[1].get('var') == 'None'):
+                    continue
+            base_, projs_ = receiver_root(B, t2['args'][0])
+            for fld in ('our_challenge', 'their_challenge', 'negotiated_flags'):
+                if fld in [x for x in projs_ if isinstance(x, str)] and (B.all_paths_pass(bb, [bb2]) or B.block_dominates(bb2, bb)):
+                    cleared.add(fld)
         missing = {'our_challenge', 'their_challenge', 'negotiated_flags'} - cleared
         if missing:
             ctx.bad('C04.5-reset-clears', B.path, 'resets state to Disconnected but keeps %s' % sorted(missing), ctx.where(B, ln=st['ln']),
